@@ -445,7 +445,17 @@ def _check_superposition(ctx: Ctx) -> None:
                 if k != tx:
                     problems.append('channel column %s is fed signal row %s' % (tx, k))
         txs = sorted(s[2] for s in sites)
-        inner = [l for l in loops if norm(l.iter).replace(' ', '') in ('range(1,num_tx)',)]
+        # range(1, <a local bound to the second dimension of the grid / the number of transmitters>)
+        def _is_tx_count(e_):
+            if not isinstance(e_, ast.Name):
+                return False
+            for a_ in walk_no_nested(fn.node):
+                if isinstance(a_, ast.Assign) and isinstance(a_.targets[0], (ast.Tuple, ast.List)) and len(a_.targets[0].elts) == 2 \
+                        and isinstance(a_.targets[0].elts[1], ast.Name) and a_.targets[0].elts[1].id == e_.id and norm(a_.value).endswith('.shape'):
+                    return True
+            return e_.id in ('num_tx',)
+        inner = [l for l in loops if isinstance(l.iter, ast.Call) and norm(l.iter.func) == 'range' and len(l.iter.args) == 2
+                 and norm(l.iter.args[0]) == '1' and _is_tx_count(l.iter.args[1])]
         if len(sites) != 2 or '0' not in txs:
             problems.append('expected the first term with index 0 plus one looped term, found columns %s' % txs)
         if len(inner) != 1:
